@@ -3,6 +3,7 @@ import RsslVerif.Lemmas.Conv
 import RsslVerif.Lemmas.OverloadLazy
 import RsslVerif.Lemmas.OverloadT
 import RsslVerif.Lemmas.OverloadCall
+import RsslVerif.Lemmas.OverloadSeq
 import RsslVerif.Gen.ResolveShape
 import RsslVerif.Model.OverloadSrc
 /-!
@@ -15,6 +16,7 @@ candidate lists, arities and argument lists (no size bound), with the conversion
 namespace RsslVerif.Thm.C16
 open RsslVerif.Gen.RankTable RsslVerif.Model.Conv RsslVerif.Model.Overload RsslVerif.Spec.Overload
 open RsslVerif.Lemmas.Overload RsslVerif.Lemmas.Conv RsslVerif.Lemmas.OverloadT RsslVerif.Lemmas.OverloadCall
+open RsslVerif.Lemmas.OverloadSeq
 
 /-! ## facts about the extracted tables (a one-cell change of casting.rs breaks one of these) -/
 
@@ -656,6 +658,105 @@ theorem out_vec1_is_refused :
 
 `Gen.ResolveShape` is re-extracted from typer/src/typer/{expressions,scopes}.rs on every run. -/
 
+/-! ## calls interleaved with declarations (`Model/OverloadSeq.lean`)
+
+The type checker walks a translation unit once; `runSeq` is that walk for the overloads of one name: declarations push
+onto the symbol vector of their scope, a struct registers all its methods first, the compiler's own overloads lead the
+root vector, definitions of declared functions insert nothing, call sites resolve against the vector `find_identifier`
+hands over at that moment, and a call inside a template body is resolved when the first call of that instance is
+type checked.  `Spec.visibleAt` says, without any walk, which candidates the property calls *visible* at a place. -/
+
+/-- **The verdict at a call site is the resolution on the candidates visible at the site, and on nothing else.**
+    For every translation unit `pre ++ [site] ++ post` on every path: what the site shows is `callT` (resolution,
+    then the output-argument check) on `Spec.visibleAt` — the overloads declared above the call in the scope the
+    lookup reaches (all methods for a method call) — or "unknown name" when there is none.  No other item of the
+    unit takes part: not what is declared below the call, not the definitions of declared functions, not the call
+    sites, template helpers and instantiations above it (`visibleAt` does not look at them): **no state is carried from
+    one call site to the next**. -/
+theorem site_verdict_is_resolution_of_visible (p : SeqPath) (pre post : List SeqItem) (m : Nat) (x : List TArg)
+    (a : List ETy) (o : SiteObs) :
+    (pre.length, o) ∈ runSeq p (pre ++ .site m x a :: post) ↔ o = siteObs (visibleAt p pre post m) x a :=
+  site_obs_iff p pre post m x a o
+
+/-- **`visible_prefix_independent`: the verdict of a site is a function of the *set* visible at it.**  Two call sites
+    with the same arguments — in the same unit or in different ones, on the same path or on different ones, at any
+    places, looked up in any way, with whatever calls, definitions, helpers and later declarations around them — that
+    see the same candidates in any two orders show the same verdict (accepted with the same overload / refused for the
+    same reason / ambiguous between the same overloads / unmatched). -/
+theorem visible_prefix_independent (p p' : SeqPath) (pre post pre' post' : List SeqItem) (m m' : Nat)
+    (x : List TArg) (a : List ETy) (v v' : List TCand) (o o' : SiteObs)
+    (hv : visibleAt p pre post m = some v) (hv' : visibleAt p' pre' post' m' = some v')
+    (hperm : List.Perm v v') (hid : (v.map (·.id)).Nodup)
+    (ho : (pre.length, o) ∈ runSeq p (pre ++ .site m x a :: post))
+    (ho' : (pre'.length, o') ∈ runSeq p' (pre' ++ .site m' x a :: post')) :
+    o.normalize = o'.normalize := by
+  rw [(site_obs_iff p pre post m x a o).mp ho, (site_obs_iff p' pre' post' m' x a o').mp ho', hv, hv']
+  simp only [siteObs, SiteObs.normalize]
+  rw [callT_perm hperm x a hid]
+
+/-- the same when nothing is visible at either site: both report the unknown name -/
+theorem nothing_visible_is_unknown_name (p : SeqPath) (pre post : List SeqItem) (m : Nat) (x : List TArg)
+    (a : List ETy) (o : SiteObs) (hv : visibleAt p pre post m = none)
+    (ho : (pre.length, o) ∈ runSeq p (pre ++ .site m x a :: post)) : o = .noname := by
+  rw [(site_obs_iff p pre post m x a o).mp ho, hv]; rfl
+
+/-- **The instantiation registry is transparent.**  The one thing a resolution leaves behind for later call sites is
+    the function registry's table of template instantiations (`find_instantiation`, consulted by
+    `build_function_template_signature` / `build_intrinsic_template` before they substitute).  `runSeqR` threads that
+    table through every candidate of every call of the unit, in the order the type checker meets them; for every unit
+    whose declarations have distinct ids it shows exactly what `runSeq` — every call resolved from scratch — shows:
+    with the state the code really carries, **no call site influences a later one**. -/
+theorem registry_is_transparent (p : SeqPath) (items : List SeqItem)
+    (hD : ((allDeclared items).map (·.id)).Nodup) : runSeqR p items = runSeq p items :=
+  runSeqR_eq p items hD
+
+/-- non-vacuity: the second call of `template<T0, T1> f(T0, T1)` with the same argument types finds the instantiation the
+    first one registered, a call with another second argument registers a second one -/
+example :
+    let t : TCand := ⟨0, [.type, .type], [⟨.tvar 0, .in⟩, ⟨.tvar 1, .in⟩], 2⟩
+    let i : ETy := ⟨⟨{}, .scalar .int32⟩, .lvalue⟩
+    let f : ETy := ⟨⟨{}, .scalar .float32⟩, .lvalue⟩
+    let r1 := (callTR [] [t] [] [i, f]).2
+    r1.length = 1 ∧ (callTR r1 [t] [] [i, f]).2 = r1 ∧ ((callTR r1 [t] [] [i, i]).2).length = 2 := by decide
+
+/-- **A call in a template body** shows, when the call that instantiates the helper is type checked: nothing, if that
+    instance has a body already; else the resolution on what is visible *at the instantiating call* (in the scope the
+    helper was declared in) — not at the place of the template.  (`noname` alone: no helper of that number.) -/
+theorem template_body_site_resolved_at_first_instantiation (p : SeqPath) (pre post : List SeqItem) (j z : Nat)
+    (o : SiteObs) (h : (pre.length, o) ∈ runSeq p (pre ++ .trigger j z :: post)) :
+    o = .cached ∨ o = .noname ∨
+      ∃ m a, lookupHelper j (stateAfter p (SeqState.init p (pre ++ .trigger j z :: post)) pre).helpers = some (m, a) ∧
+        o = siteObs (visibleAt p pre post m) [] a :=
+  trigger_obs p pre post j z o h
+
+/-- every observation belongs to a call site or an instantiating call of the unit, at its place -/
+theorem observations_are_at_places (p : SeqPath) (items : List SeqItem) (n : Nat) (o : SiteObs)
+    (h : (n, o) ∈ runSeq p items) : n < items.length := by
+  have := runFrom_pos p (SeqState.init p items) 0 items n o h
+  omega
+
+/-- non-vacuity, and the shape of the seeded defect "memoised resolution": `f(float)`; call `f(int_var)`; `f(int)`;
+    the same call again, once more after the definition of `f(float)`, and from inside a template instantiated before
+    and after: the second call sees two candidates and selects the exact one -/
+example :
+    let fl : TCand := ⟨0, [], [⟨.conc ⟨{}, .scalar .float32⟩, .in⟩], 1⟩
+    let it : TCand := ⟨1, [], [⟨.conc ⟨{}, .scalar .int32⟩, .in⟩], 1⟩
+    let arg : List ETy := [⟨⟨{}, .scalar .int32⟩, .lvalue⟩]
+    (runSeq .free [.decl 0 fl, .helper 0 0 arg, .site 0 [] arg, .trigger 0 0, .decl 0 it, .site 0 [] arg, .define 0,
+        .site 0 [] arg, .trigger 0 0, .trigger 0 1, .site 1 [] arg]).map (fun x => (x.1, x.2.normalize)) =
+      [(2, .verdict (.accepted 0)), (3, .verdict (.accepted 0)), (5, .verdict (.accepted 1)), (7, .verdict (.accepted 1)),
+       (8, .cached), (9, .verdict (.accepted 1)), (10, .noname)] := by decide
+
+/-- non-vacuity of `visible_prefix_independent`: a site in `namespace N` after `N::f` was declared in two reopened blocks
+    in one order, and a method call in a struct that declares the same two overloads in the other order *below* the caller -/
+example :
+    let c0 : TCand := ⟨0, [], [⟨.conc ⟨{}, .scalar .float32⟩, .in⟩], 1⟩
+    let c1 : TCand := ⟨1, [], [⟨.conc ⟨{}, .vector .int32 2⟩, .in⟩], 1⟩
+    visibleAt .free [.decl 0 c1, .decl 1 c0, .site 2 [] [], .decl 1 c1] [.decl 1 ⟨2, [], [], 0⟩] 2 = some [c0, c1] ∧
+    visibleAt .method [] [.decl 0 c1, .decl 0 c0] 0 = some [c1, c0] ∧ List.Perm [c0, c1] [c1, c0] := by
+  refine ⟨by decide, by decide, ?_⟩
+  exact List.Perm.swap _ _ _
+
 /-- every syntactic fact the transcription relies on holds in the current source: the arity guard precedes
     `find_overload_casts`; the tournament compares all pairs, skips the candidate itself, loses only on `Worse`, its `zip`
     loop has no early exit and the `against` loop breaks; `count_by_rank` counts equal vector ranks, worst first; the
@@ -670,7 +771,13 @@ theorem out_vec1_is_refused :
     and otherwise an `Expression::Cast`, whose type is an rvalue; the innermost scope that knows the
     name supplies the whole overload list, in insertion order; a struct supplies all its methods of that name; an
     intrinsic object all its functions of that name; `find_function_type` is called from `write_function` and
-    `write_method` only -/
+    `write_method` only; and — what `Model/OverloadSeq.lean` walks through — a declaration that matches no earlier one
+    is registered and pushed, a definition of a declared function takes its id and pushes nothing, the body of an
+    ordinary function is type checked at its definition and that of a template is not, a struct registers all its
+    methods before it type checks the first body, a call that selects a template instance builds the instance's body
+    only if it has none, in the scope the template was declared in, and a struct template is instantiated once per
+    argument list, in the scope it was declared in; the instantiation of a function template is found again by the
+    template and *all* its arguments (so the registry is a cache of `substParams`, a function of that key) -/
 theorem resolve_shape_as_modelled :
     RsslVerif.Gen.ResolveShape.shape =
       { arityGuardThenCasts := true, tournamentComparesAllPairsSkippingSelf := true,
@@ -684,11 +791,43 @@ theorem resolve_shape_as_modelled :
         signatureSubstitutionFailsAsAWhole := true, templateInstantiationPropagatesTheFailure := true,
         intrinsicInstantiationPropagatesTheFailure := true, functionCallChecksOutputsAfterCasts := true,
         methodCallChecksOutputsAfterCasts := true, applyKeepsTheExpressionOnlyWithoutAnyCast := true,
-        aCastIsAnRvalue := true, innermostScopeWithTheNameWins := true,
+        aCastIsAnRvalue := true,
+        declarationIsPushedADefinitionOfItReusesTheId := true, bodyIsCheckedAtTheDefinitionATemplateBodyIsNot := true,
+        allMethodsAreRegisteredBeforeTheFirstBody := true,
+        templateBodyIsBuiltOncePerInstanceInTheDeclaringScope := true, aCallOfAnInstanceBuildsItsBody := true,
+        structTemplateIsInstantiatedOncePerArgumentsInTheDeclaringScope := true,
+        instantiationIsFoundAgainByTemplateAndAllArguments := true, instantiationIsLookedUpBeforeItIsBuilt := true,
+        innermostScopeWithTheNameWins := true,
         scopeContributesItsOwnFunctionsOnly := true, overloadsAreAppended := true,
         methodsAreAllMethodsOfThatName := true } ∧
     RsslVerif.Gen.ResolveShape.callers = ["write_function", "write_method"] ∧
     RsslVerif.Gen.ResolveShape.objectMethodsAreAllFunctionsOfThatName = true := by decide
+
+/-- **`resolutionReadsNoCallHistory`**: the state the resolution can reach.  `find_function_type`,
+    `find_overload_casts`, `try_infer_template_type` and `normalize_template_type` go through their `context` only to
+    the function registry (`get_function_signature`, `get_intrinsic_data`), the type registry (`get_type_layer`,
+    `register_type`: hash-consing), `&mut context.module` handed to `ImplicitConversion::find`, each other, and the two
+    routines that instantiate a candidate's signature; those two read and extend the function registry (the
+    instantiation of a template for given arguments is found again, `find_instantiation`: a function of its key —
+    the signature is `apply_templates` of the template's), the scope table of the *template* (`function_to_scope`,
+    `scopes`, `make_scope`) and the template parameter tables.  None of it is written by a call site except the
+    instantiation registry.  And a `Context` has no field besides the module, the scope table, the current scope,
+    `function_to_scope` and the struct template table: there is no place where one call could leave its verdict for
+    the next (a memo of resolved calls would be a new field and a new path: the seeded defect C16-3). -/
+theorem resolution_reads_no_call_history :
+    RsslVerif.Gen.ResolveShape.resolutionContextUses =
+      ["context", "context.build_function_template_signature", "context.build_intrinsic_template", "context.module",
+       "context.module.function_registry.get_function_signature", "context.module.function_registry.get_intrinsic_data",
+       "context.module.type_registry.get_type_layer", "context.module.type_registry.register_type"] ∧
+    RsslVerif.Gen.ResolveShape.instantiationContextUses =
+      ["self.function_to_scope", "self.function_to_scope.insert", "self.make_scope",
+       "self.module.function_registry.find_instantiation", "self.module.function_registry.get_function_name_definition",
+       "self.module.function_registry.get_function_signature", "self.module.function_registry.get_intrinsic_data",
+       "self.module.function_registry.register_function", "self.module.function_registry.set_intrinsic_data",
+       "self.module.function_registry.set_template_instantiation_data", "self.module.type_registry.get_template_type",
+       "self.module.variable_registry.get_template_value", "self.scopes"] ∧
+    RsslVerif.Gen.ResolveShape.contextFields =
+      ["module", "scopes", "current_scope", "function_to_scope", "struct_template_data"] := by decide
 
 /-- the seven transcribed functions are, character for character (comments and white space aside), the text the model
     was transcribed from -/
